@@ -111,12 +111,47 @@ def run(ctx):
                 rep("%s-wrong-error" % v["res"], "spec: error %d after bodies %s; interpreter error [%s] %s" % (code, v["trace"], r.get("code"), r.get("msg")))
             elif bodies != want_bodies:
                 rep("body-order-before-error", "bodies before the error %s, spec %s" % (bodies, want_bodies))
+    # ---- export facet (ZnExport): import everything / every selective list of <= 4 names in every written order ----
+    ntxt, _ = common.tlc(ctx, "ZnExport", "MC_ZnExport.cfg", timeout=600)
+    ltxt, _ = common.tlc(ctx, "ZnExport", "MC_ZnExport_lib.cfg", timeout=600)
+    evecs = [dict(v, lib=False) for v in common.vectors(ntxt, "exp")] + [dict(v, lib=True) for v in common.vectors(ltxt, "exp")]
+    if len(evecs) != 206 + 16:
+        raise common.NoVerdict("unexpected number of export vectors: %d" % len(evecs))
+    ecases = [dict(id=i, mode=v["mode"], sel=list(v["sel"]), lib=v["lib"]) for i, v in enumerate(evecs)]
+    eres = common.run_harness(ctx, znh, "modsel", ecases, timeout=900)
+    if len(eres) != len(ecases):
+        raise common.NoVerdict("harness returned %d/%d" % (len(eres), len(ecases)))
+    for r in eres:
+        v = evecs[r["id"]]
+        syms = ["g", "r"] if v["lib"] else ["m", "h", "t", "p"]
+        okval = dict(m="甲-help", h="甲-help", t="甲", p="ok", g="ok", r="ok")
+        what = "%s %s" % ("library" if v["lib"] else "module", "import all" if v["mode"] == "all" else "之" + "、".join(v["sel"]))
+        def rep(k2, msg):
+            common.report(ctx, "export:%s" % k2, "%s: %s" % (what, msg), dict(spec=v, result=r))
+        if r["obs"] in ("panic", "timeout", "exit", "harness-error"):
+            rep(r["obs"], "%s %s" % (r["obs"], r.get("detail", "")[:200])); continue
+        if r["obs"] != "value":
+            if v["soft"]:
+                continue                      # a list naming something the module does not export may be refused
+            rep("error-for-ok", "spec: names %s become available; interpreter: error [%s] %s" % (sorted(v["visible"]), r.get("code"), r.get("msg"))); continue
+        d = [strs(x) for x in r.get("display") or []]
+        if len(d) != 3:
+            rep("shape", "expected three probe rows, got %s" % d); continue
+        want = [okval[s] if s in v["visible"] else "ERR" for s in syms]
+        if d[0] != want:
+            rep("visible-set", "usable names %s, spec %s (exactly the exported names that are listed, in whatever order they are written)" % (d[0], want))
+        for s, got in zip(syms, d[1]):
+            if s in v["visible"] and got != "RO":
+                rep("assignable", "imported name %s could be assigned (%s)" % (s, got))
+        if d[2] != d[0]:
+            rep("changed-by-assignment", "probes after the assignment attempts %s, before %s" % (d[2], d[0]))
+    cases = cases + ecases
     cov = dict(traces_validated_against_impl=len(cases), samples=[vecs[1000], mvecs[10]],
                evaluations=len(cases), distinct_nontrivial=len(cases),
                rule="all 512 digraphs (self-loops included) on three imported modules x all 15 ordered non-empty import lists of the main file (7680 runs), all 65536 digraphs on FOUR "
                     "imported modules x four import lists (TLC checks the invariants on all 262144; quick replays a seeded 6000 of them, thorough all), plus all digraphs on two modules with a missing third one (576): TLC runs the depth-first load machine (invariants: body at most once, imports before body, circular error iff a cycle "
                     "is reachable - against an independent transitive-closure definition) and emits body trace and result; each vector becomes a directory of .zn files with "
                     "1-3 path segments, executed with LoadFile().Execute: body order/multiplicity, error code 63/60, and five probes per module (an imported method, a handler block of an imported method, a body "
-                    "constructing the module's type and a method of that type must all be able to use their own module's names, and a method that calls what its module imported - methods of the modules it imports, a library function - gives from the importer what it gives at home; modules not imported by main are not visible); the three-module digraphs again with one module file made of import statements only, and with the library 《@JSON》 imported by every file; plus 8 export/read-only/selective-import probe programs",
+                    "constructing the module's type and a method of that type must all be able to use their own module's names, and a method that calls what its module imported - methods of the modules it imports, a library function - gives from the importer what it gives at home; modules not imported by main are not visible); the three-module digraphs again with one module file made of import statements only, and with the library 《@JSON》 imported by every file; plus 8 export/read-only/selective-import probe programs; export facet (ZnExport): import-all and every selective list of <= 4 distinct names over {method, helper method, type, module variable, unknown name} in every written order (206), the same for the library 《@JSON》 (16) - usable names = exported names that are listed, every usable name refuses assignment",
                spec_outcomes=outcomes)
     return cov, ["import order inside a module is alphabetical (the generator writes it that way)", "four modules: exhaustive in the thorough tier, a TLC-seeded sample in the quick tier"]
